@@ -2,6 +2,8 @@ package main
 
 import (
 	"fmt"
+	"go/token"
+	"go/types"
 	"strings"
 
 	"golang.org/x/tools/go/ssa"
@@ -240,6 +242,59 @@ func runC18(c *Ctx, r *Report, tier string) {
 			r.Check(first && takes, "TOKENS", cpn, "attached-argument test applies to the first character of a cluster that takes an argument", c.ipos(iff), "REQ(byte offset 0) ∧ REQ(canArgument())", fmt.Sprintf("first necessary=%v canArgument necessary=%v", first, takes))
 		}
 		r.Check(nW >= 1, "TOKENS", cpn, "a cluster with an attached argument does not consume the next word", c.pos(cp.Pos()), "the cluster's byte length is compared with the byte length of its first character", "no such comparison: a multi-byte short option followed by its value as a separate word is taken for `-oVALUE`, and the value word is then read as a command or positional")
+	}
+	// what is known about one typed word is not carried over to the next: the option found for the current word and
+	// its "may take the next word" flag are not loop-carried values of the word loop
+	if wl := c.loopContaining(cp, c.isCallTo("(*parseState).pop")); wl != nil {
+		carried := func(v ssa.Value) *ssa.Phi {
+			seen := map[ssa.Value]bool{}
+			var walk func(v ssa.Value) *ssa.Phi
+			walk = func(v ssa.Value) *ssa.Phi {
+				if v == nil || seen[v] {
+					return nil
+				}
+				seen[v] = true
+				if u, ok := v.(*ssa.UnOp); ok && u.Op == token.NOT {
+					return walk(u.X)
+				}
+				ph, ok := v.(*ssa.Phi)
+				if !ok {
+					return nil
+				}
+				if ph.Block() == wl.Header {
+					return ph
+				}
+				for _, e := range ph.Edges {
+					if r := walk(e); r != nil {
+						return r
+					}
+				}
+				return nil
+			}
+			return walk(v)
+		}
+		nSt := 0
+		for lb := range wl.Blocks {
+			for _, in := range lb.Instrs {
+				switch x := in.(type) {
+				case *ssa.If:
+					if bt, ok := x.Cond.Type().Underlying().(*types.Basic); ok && bt.Info()&types.IsBoolean != 0 {
+						if _, isPhi := x.Cond.(*ssa.Phi); isPhi {
+							nSt++
+							ph := carried(x.Cond)
+							r.Check(ph == nil, "TOKENS", cpn, "a per-word flag is not carried over from the previous word", c.ipos(x), "the flag tested here is set within the handling of the current word", "the flag can still hold what an earlier word set it to (loop-carried "+trunc(c.term(x.Cond), 60)+")")
+						}
+					}
+				case *ssa.Call:
+					if c.calleeName(x.Common()) == "(*Option).canArgument" {
+						nSt++
+						ph := carried(x.Call.Args[0])
+						r.Check(ph == nil, "TOKENS", cpn, "the option examined belongs to the current word", c.ipos(x), "the option is looked up within the handling of the current word", "the option can be the one found for an earlier word (loop-carried)")
+					}
+				}
+			}
+		}
+		r.Check(nSt >= 2, "TOKENS", cpn, "per-word state sites found", c.pos(cp.Pos()), "≥ 2", fmt.Sprintf("%d", nSt))
 	}
 	// words after a terminator: all of them but the last (the word being completed) have been typed
 	for _, in := range c.instrs(cp, c.isCallTo("(*completion).skipPositional")) {
